@@ -51,16 +51,27 @@ Definition remaining (seen : list bytes) (ms : list member) : nat :=
     | _ => acc
     end) O ms.
 
+Lemma remaining_cons : forall seen m ms,
+  remaining seen (m :: ms) =
+  match m with
+  | MAlias n _ t => if existsb (bytes_eqb n) seen then remaining seen ms
+                    else (S (maybe_depth t) + remaining seen ms)%nat
+  | _ => remaining seen ms
+  end.
+Proof. intros. destruct m; reflexivity. Qed.
+
 Lemma remaining_nil : forall ms, remaining [] ms = alias_depths ms.
 Proof.
   induction ms as [|m ms IH]; [reflexivity|].
-  unfold remaining, alias_depths in *. simpl. destruct m; simpl; rewrite ?IH; reflexivity.
+  rewrite remaining_cons. unfold alias_depths in *. simpl.
+  destruct m; simpl; rewrite ?IH; reflexivity.
 Qed.
 
 Lemma remaining_mono : forall n seen ms, (remaining (n :: seen) ms <= remaining seen ms)%nat.
 Proof.
   intros n seen ms. induction ms as [|m ms IH]; [apply le_n|].
-  unfold remaining in *. simpl. destruct m as [n' doc' t'| |]; try exact IH.
+  rewrite !remaining_cons. destruct m as [n' doc' t'| |]; try exact IH.
+  simpl existsb.
   destruct (bytes_eqb n' n); simpl; destruct (existsb (bytes_eqb n') seen); lia.
 Qed.
 
@@ -71,9 +82,10 @@ Proof.
   intros n doc a seen ms. induction ms as [|m ms IH]; intros Hin Hs; [destruct Hin|].
   destruct Hin as [Heq|Hin].
   - subst m. pose proof (remaining_mono n seen ms) as Hm.
-    unfold remaining in *. simpl. rewrite bytes_eqb_refl. simpl. rewrite Hs. lia.
-  - specialize (IH Hin Hs). unfold remaining in *. simpl.
+    rewrite !remaining_cons. simpl existsb. rewrite bytes_eqb_refl. simpl. rewrite Hs. lia.
+  - specialize (IH Hin Hs). rewrite !remaining_cons.
     destruct m as [n' doc' t'| |]; try exact IH.
+    simpl existsb.
     destruct (bytes_eqb n' n); simpl; destruct (existsb (bytes_eqb n') seen); lia.
 Qed.
 
@@ -93,3 +105,126 @@ Qed.
 
 Lemma mu_fuel : forall ms t, (mu ms [] t < error_type_fuel ms t)%nat.
 Proof. intros. unfold mu, error_type_fuel. rewrite remaining_nil. lia. Qed.
+
+(* ---------- 1. the fuel is never exhausted ---------- *)
+
+Lemma peel_error_stable : forall ms fuel seen t u k,
+  (mu ms seen u < fuel)%nat ->
+  peel_error (fuel + k) ms seen t u = peel_error fuel ms seen t u.
+Proof.
+  intros ms fuel. induction fuel as [|f IH]; intros seen t u k Hmu; [lia|].
+  simpl. destruct u as [| | | | |e|e|e|n|fs|ns]; try reflexivity.
+  - apply IH. pose proof (mu_maybe ms seen e). lia.
+  - destruct (existsb (bytes_eqb n) seen) eqn:Hs; [reflexivity|].
+    destruct (lookup_alias n ms) as [a|] eqn:Hl; [|reflexivity].
+    apply IH. pose proof (mu_alias ms seen n a Hs Hl). lia.
+Qed.
+
+Theorem peel_error_fuel_enough : forall ms t k,
+  peel_error (error_type_fuel ms t + k) ms [] t t = peel_error (error_type_fuel ms t) ms [] t t.
+Proof. intros ms t k. apply peel_error_stable. apply mu_fuel. Qed.
+
+(* ---------- 2. the declared type is never a pointer type ---------- *)
+
+Lemma peel_error_not_pointer_gen : forall ms fuel seen t u,
+  (mu ms seen u < fuel)%nat -> (Ptr ms t -> Ptr ms u) ->
+  ~ Ptr ms (peel_error fuel ms seen t u).
+Proof.
+  intros ms fuel. induction fuel as [|f IH]; intros seen t u Hmu Hinv; [lia|].
+  simpl. destruct u as [| | | | |e|e|e|n|fs|ns];
+    try (intro Hp; apply Hinv in Hp; inversion Hp; fail).
+  - apply IH; [|tauto]. pose proof (mu_maybe ms seen e). lia.
+  - destruct (existsb (bytes_eqb n) seen) eqn:Hs; [intro Hp; inversion Hp|].
+    destruct (lookup_alias n ms) as [a|] eqn:Hl.
+    + apply IH.
+      * pose proof (mu_alias ms seen n a Hs Hl). lia.
+      * intro Hp. apply Hinv in Hp. inversion Hp as [|n' a' Hl' Hpa]. subst n'.
+        rewrite Hl in Hl'. injection Hl' as Hl'. subst a'. exact Hpa.
+    + intro Hp. apply Hinv in Hp. inversion Hp as [|n' a' Hl' Hpa]. subst n'.
+      rewrite Hl in Hl'. discriminate Hl'.
+Qed.
+
+Theorem peel_error_not_pointer : forall ms t,
+  ~ Ptr ms (peel_error (error_type_fuel ms t) ms [] t t).
+Proof. intros ms t. apply peel_error_not_pointer_gen; [apply mu_fuel|tauto]. Qed.
+
+(* ---------- 3. a type that is not a pointer type is left alone ---------- *)
+
+Lemma peel_error_id_gen : forall ms fuel seen t u,
+  ~ Ptr ms u ->
+  peel_error fuel ms seen t u = t \/ peel_error fuel ms seen t u = TStruct [].
+Proof.
+  intros ms fuel. induction fuel as [|f IH]; intros seen t u Hnp; [left; reflexivity|].
+  simpl. destruct u as [| | | | |e|e|e|n|fs|ns]; try (left; reflexivity).
+  - exfalso. apply Hnp. constructor.
+  - destruct (existsb (bytes_eqb n) seen) eqn:Hs; [right; reflexivity|].
+    destruct (lookup_alias n ms) as [a|] eqn:Hl; [|left; reflexivity].
+    apply IH. intro Hp. apply Hnp. exact (Ptr_alias ms n a Hl Hp).
+Qed.
+
+Theorem peel_error_id : forall ms t, ~ Ptr ms t ->
+  peel_error (error_type_fuel ms t) ms [] t t = t \/ peel_error (error_type_fuel ms t) ms [] t t = TStruct [].
+Proof. intros ms t Hnp. apply peel_error_id_gen. exact Hnp. Qed.
+
+(* ---------- 3'. exactly when the empty struct is substituted ---------- *)
+
+(* walking from u through alias bodies comes back to an alias already visited *)
+Inductive Revisits (ms : list member) : list bytes -> ty -> Prop :=
+| Rev_hit : forall seen n, In n seen -> Revisits ms seen (TAlias n)
+| Rev_step : forall seen n a, ~ In n seen -> lookup_alias n ms = Some a ->
+    Revisits ms (n :: seen) a -> Revisits ms seen (TAlias n).
+
+Lemma existsb_bytes_In : forall n seen, existsb (bytes_eqb n) seen = true <-> In n seen.
+Proof.
+  intros n seen. rewrite existsb_exists. split.
+  - intros (x & Hin & E). apply bytes_eqb_eq in E. subst x. exact Hin.
+  - intro Hin. exists n. split; [exact Hin|apply bytes_eqb_refl].
+Qed.
+
+Lemma existsb_bytes_notIn : forall n seen, existsb (bytes_eqb n) seen = false <-> ~ In n seen.
+Proof.
+  intros n seen. rewrite <- existsb_bytes_In. destruct (existsb (bytes_eqb n) seen); split; intro H;
+    try reflexivity; try discriminate; try (intro H'; discriminate H').
+  exfalso. apply H. reflexivity.
+Qed.
+
+Lemma peel_error_id_sharp_gen : forall ms fuel seen t u,
+  (mu ms seen u < fuel)%nat -> ~ Ptr ms u ->
+  (Revisits ms seen u -> peel_error fuel ms seen t u = TStruct []) /\
+  (~ Revisits ms seen u -> peel_error fuel ms seen t u = t).
+Proof.
+  intros ms fuel. induction fuel as [|f IH]; intros seen t u Hmu Hnp; [lia|].
+  simpl. destruct u as [| | | | |e|e|e|n|fs|ns];
+    try (split; [intro Hr; inversion Hr|intros _; reflexivity]).
+  - exfalso. apply Hnp. constructor.
+  - destruct (existsb (bytes_eqb n) seen) eqn:Hs.
+    + split; [reflexivity|]. intro Hnr. exfalso. apply Hnr. apply Rev_hit.
+      apply existsb_bytes_In. exact Hs.
+    + assert (Hnin : ~ In n seen) by (apply existsb_bytes_notIn; exact Hs).
+      destruct (lookup_alias n ms) as [a|] eqn:Hl.
+      * assert (Hmu' : (mu ms (n :: seen) a < f)%nat)
+          by (pose proof (mu_alias ms seen n a Hs Hl); lia).
+        assert (Hnp' : ~ Ptr ms a)
+          by (intro Hp; apply Hnp; exact (Ptr_alias ms n a Hl Hp)).
+        destruct (IH (n :: seen) t a Hmu' Hnp') as [IH1 IH2]. split.
+        -- intro Hr. apply IH1. inversion Hr as [s' n' Hin|s' n' a' _ Hl' Hr']; subst.
+           ++ contradiction.
+           ++ rewrite Hl in Hl'. injection Hl' as Hl'. subst a'. exact Hr'.
+        -- intro Hnr. apply IH2. intro Hr'. apply Hnr. exact (Rev_step ms seen n a Hnin Hl Hr').
+      * split; [|intros _; reflexivity].
+        intro Hr. inversion Hr as [s' n' Hin|s' n' a' _ Hl' Hr']; subst.
+        -- contradiction.
+        -- rewrite Hl in Hl'. discriminate Hl'.
+Qed.
+
+(* a non-pointer type becomes the empty struct exactly when the walk from it revisits an
+   alias (type T U; type U T; error E T), and is otherwise declared as it stands *)
+Theorem peel_error_id_sharp : forall ms t, ~ Ptr ms t ->
+  (Revisits ms [] t -> peel_error (error_type_fuel ms t) ms [] t t = TStruct []) /\
+  (~ Revisits ms [] t -> peel_error (error_type_fuel ms t) ms [] t t = t).
+Proof. intros ms t Hnp. apply peel_error_id_sharp_gen; [apply mu_fuel|exact Hnp]. Qed.
+
+Print Assumptions peel_error_fuel_enough.
+Print Assumptions peel_error_not_pointer.
+Print Assumptions peel_error_id.
+Print Assumptions peel_error_id_sharp.
